@@ -1,4 +1,5 @@
 import CG.Proofs.ScriptBuild
+import CG.Proofs.ScriptBuildMulti
 import CG.Proofs.ScriptText
 import CG.Generated.Tables
 /-!
@@ -97,6 +98,17 @@ theorem C16_push_evaluates_to_data {σ : Type} (H : Hashes) (C : Checker σ) (c0
       = .ok { stack := [d], alt := [], pos := none, chk := c0 } := by
   have hp : (2 : Nat) ^ 32 = 4294967296 := by decide
   exact coreEval_push H C c0 flags d (by omega)
+
+/-- **Any number of pushes, at whatever offsets they land.**  The script built by appending the data of a list one after
+    the other evaluates — whatever the checker, hash functions and flags — to exactly those data, the first at the bottom
+    (head of the model's stack list = top), with an empty alt stack, no error and no panic.  The one-push theorem above is
+    the case of a push at offset 0; here every later push starts at a non-zero offset (each of the four length classes). -/
+theorem C16_pushes_evaluate_to_data {σ : Type} (H : Hashes) (C : Checker σ) (c0 : σ) (flags : Nat) (ds : List Bytes)
+    (h : ∀ d ∈ ds, d.length < 2 ^ 32) :
+    coreEval H C c0 (ds.foldl appendData []) flags none none none none
+      = .ok { stack := ds.reverse, alt := [], pos := none, chk := c0 } := by
+  have hp : (2 : Nat) ^ 32 = 4294967296 := by decide
+  exact coreEval_pushes H C c0 flags ds (fun d hd => by have := h d hd; omega)
 
 /-- A pushed number in the documented range `[-(2^31-1), 2^31-1]` decodes back to that number. -/
 theorem C16_push_num {σ : Type} (H : Hashes) (C : Checker σ) (c0 : σ) (flags : Nat) (n : Int)
@@ -254,5 +266,8 @@ example : printString pinned [0x76, 0xa9, 0x02, 0xab, 0xcd, 0x4c, 0x01, 0x07] = 
 example : (9 : Nat) ≤ (List.replicate 71 (0 : UInt8)).length ∧ (List.replicate 71 (0 : UInt8)).length ≤ 73 := by decide
 example : checkUnlockScript (createUnlockScript (List.replicate 40 0x30) (List.replicate 33 2)) = true := by decide +kernel
 example : checkUnlockScriptPinned (createUnlockScript (List.replicate 40 0x30) (List.replicate 33 2)) = false := by decide +kernel
+
+/-- three pushes, the second a PUSHDATA1 push standing at offset 2 (a toy instance of the list theorem, evaluated) -/
+example : (([[7], List.replicate 80 1, []] : List Bytes).foldl appendData []).length = 2 + 82 + 1 := by decide +kernel
 
 end CG.Props.C16
